@@ -110,7 +110,8 @@ func mdataRollupHistory(rec *trace.Recorder, dir string, rng *rand.Rand, h int, 
 	t1h := timeutil.Interval(3600 * 1000)
 	ivs := option.Intervals{{Interval: src, Retention: timeutil.Interval(3650 * 24 * 3600 * 1000)},
 		{Interval: t5m, Retention: timeutil.Interval(3650 * 24 * 3600 * 1000)}}
-	withYear := rng.Intn(2) == 0
+	// every fourth history is scripted: two targets, the second one out of reach during the first pass
+	withYear := rng.Intn(2) == 0 || h%4 == 1
 	if withYear {
 		ivs = append(ivs, option.Interval{Interval: t1h, Retention: timeutil.Interval(3650 * 24 * 3600 * 1000)})
 	}
@@ -232,7 +233,8 @@ func mdataRollupHistory(rec *trace.Recorder, dir string, rng *rand.Rand, h int, 
 	// one target out of reach during the first pass (its store is not open, as after a restart before
 	// anything touched that segment): the pass completes the other target; the skipped one must be rolled
 	// up by a later pass
-	lateYear := withYear && w == nil && rng.Intn(2) == 0
+	lateYear := rng.Intn(2) == 0 || h%4 == 1
+	lateYear = lateYear && withYear && w == nil
 	if lateYear {
 		for _, s := range storesOf(db, "year") {
 			if err := kv.GetStoreManager().CloseStore(s.Name()); err != nil {
